@@ -22,7 +22,7 @@ def _one(args):
         subprocess.check_call(['rsync', '-a', '--exclude', 'target', '--exclude', '.git', '/repo/', repo + '/'])
         r = subprocess.run(['patch', '-p1', '-s', '-f', '-d', repo, '-i', os.path.join(d, 'patch.diff')], stdout=subprocess.PIPE, stderr=subprocess.STDOUT)
         if r.returncode != 0:
-            return {'seed': name, 'status': 'patch-does-not-apply'}
+            return {'seed': name, 'status': 'patch-does-not-apply', 'negative': meta.get('property') == 'all'}
         env = dict(os.environ, XEH_REPO=repo, XEH_SCRATCH='1', XEH_TGT_SUFFIX='-w%d' % worker)
         p = subprocess.run([os.path.join(VERIF, 'check'), pid, '--tier', 'quick'], env=env, stdout=subprocess.PIPE, stderr=subprocess.STDOUT, text=True)
         keys = [l.strip()[4:] for l in p.stdout.splitlines() if l.strip().startswith('key=')]
@@ -69,6 +69,7 @@ def run_corpus(pid, workers=6):
     out = {'seeds': len(results),
            'refactors_silent': sorted(r['seed'] for r in neg if r['status'] == 'silent'),
            'refactors_FALSE_ALARM': sorted(r['seed'] for r in neg if r['status'] not in ('silent', 'patch-does-not-apply')),
+           'refactors_stale': sorted(r['seed'] for r in neg if r['status'] == 'patch-does-not-apply'),
            'detected': sorted(r['seed'] for r in results if r['status'] == 'detected'),
            'silent_expected': sorted(r['seed'] for r in results if r['status'] == 'silent' and r.get('expected_missed')),
            'silent_unexpected': sorted(r['seed'] for r in results if r['status'] == 'silent' and not r.get('expected_missed')),
